@@ -125,6 +125,8 @@ func (c aclCmd) full() string {
 	return c.Name
 }
 
+var c06AclFile string
+
 func matchAny(globs []string, s string) bool {
 	for _, g := range globs {
 		if globMatch(g, s) {
@@ -282,7 +284,7 @@ func aclPopulate(in *Inst) {
 
 func checkC06(ctx *Ctx) {
 	ctx.Rule("one evaluation = one authorization decision: a command instance (every registered command and subcommand, with every assignment of permitted/forbidden keys and channels to its key positions, taken from the harness's own declarative key table) " +
-		"sent over TCP by a connection in a given authentication state (fresh, failed AUTH, authenticated, authenticated then disabled / restricted / deleted through ACL SETUSER/DELUSER, authenticated then given tighter rules through ACL SAVE + ACL LOAD REPLACE, authenticated then failing to authenticate as another user) as a user with a given rule set; " +
+		"sent over TCP by a connection in a given authentication state (fresh, failed AUTH, authenticated, authenticated then disabled / restricted / deleted through ACL SETUSER/DELUSER, authenticated then given tighter rules through ACL SAVE + ACL LOAD REPLACE, authenticated then failing to authenticate as another user, authenticated as a user that exists only through ACL LOAD MERGE / REPLACE of the ACL file) as a user with a given rule set; " +
 		"whenever the declarative evaluator written from the documentation says DENIED, the reply must be an error and the dataset, the ACL listing and the pub/sub table must be unchanged. " +
 		"Commands the real gate denies although the evaluator allows them are counted as over-restriction, not as violations. distinct_nontrivial = distinct (command, denial reason class, authentication state) decided")
 	ctx.Assume("the server requires authentication (RequirePass) in every instance of this check", "rule sets are given to ACL SETUSER in documented, unambiguous spellings; how SETUSER parses other spellings is C11's")
@@ -295,6 +297,7 @@ func checkC06(ctx *Ctx) {
 	defer os.RemoveAll(aclRoot)
 	in, err := NewInst(InstOpts{Extra: append(withTCP(port), sugardb.WithRequirePass(true), sugardb.WithPassword("adminpw"),
 		sugardb.WithAclConfig(filepath.Join(aclRoot, "acl.json")))})
+	c06AclFile = filepath.Join(aclRoot, "acl.json")
 	if err != nil {
 		ctx.Broken(err.Error())
 		return
@@ -395,6 +398,25 @@ func checkC06(ctx *Ctx) {
 	}
 	cfgs = append(cfgs, cfg{aclRules{Enabled: true, AllCats: true, AllCmds: true, ExclCats: []string{"write"}, ExclCmds: []string{"get"}, AllChans: true}, "then-load-replace"},
 		cfg{aclRules{Enabled: false, AllCats: true, AllCmds: true, AllChans: true}, "then-load-replace"})
+	// users that exist only through the ACL file (ACL LOAD MERGE / REPLACE, never touched by SETUSER afterwards)
+	inclSpell := []string{"c?:*", "?h:*", "ch?*"} // each matches exactly what ch:* matches among the channels used
+	exclSpell := []string{"c?:x", "?h:x", "ch?x"} // each matches ch:x only
+	for li, h := range chanSets {
+		for ki, k := range []aclRules{keySets[0], keySets[2], keySets[3]} {
+			u := aclRules{Enabled: true, AllCmds: true, AllCats: true, NoKeys: k.NoKeys, ReadGlobs: k.ReadGlobs, WriteGlobs: k.WriteGlobs,
+				AllChans: h.AllChans, InclChans: h.InclChans, ExclChans: h.ExclChans}
+			if len(u.InclChans) > 0 {
+				u.InclChans = []string{inclSpell[ki]}
+			}
+			if len(u.ExclChans) > 0 {
+				u.ExclChans = []string{exclSpell[ki]}
+			}
+			if ki == 1 {
+				u.AllCats, u.ExclCats = true, []string{"dangerous"}
+			}
+			cfgs = append(cfgs, cfg{u, []string{"loaded-merge", "loaded-replace"}[(li+ki)%2]})
+		}
+	}
 	nCfg := 0
 	for i, cf := range cfgs {
 		if !ctx.Mine(i) {
@@ -540,7 +562,30 @@ func c06Config(ctx *Ctx, in *Inst, port int, admin *Client, u aclRules, state st
 		admin.Do("ACL", "DELUSER", "u1")
 		create = aclRules{Enabled: true, AllCats: true, AllCmds: true, AllChans: true}
 	}
-	if v, _, err := admin.Do(append([]string{"ACL", "SETUSER", "u1"}, create.tokens()...)...); err != nil || v.IsError() {
+	if state == "loaded-merge" || state == "loaded-replace" {
+		// the user exists only through the ACL file: SETUSER + SAVE put it there, DELUSER removes it from the
+		// server, ACL LOAD brings it back; no SETUSER touches it afterwards
+		// The file is written by a second server instance on the same ACL file, so that this server meets
+		// the user's patterns (spelled differently in every such configuration) for the first time in the file.
+		helper, herr := NewInst(InstOpts{Extra: []func(*sugardb.SugarDB){sugardb.WithRequirePass(true), sugardb.WithPassword("adminpw"), sugardb.WithAclConfig(c06AclFile)}})
+		if herr != nil {
+			ctx.Broken("helper instance: " + herr.Error())
+			return false
+		}
+		helper.Do("ACL", "DELUSER", "u1") // the helper read the file at start-up: an older u1 would be merged into
+		for _, st := range [][]string{append([]string{"ACL", "SETUSER", "u1"}, u.tokens()...), {"ACL", "SAVE"}} {
+			if v, _, crash := helper.Do(st...); crash != "" || v.IsError() {
+				helper.Close()
+				ctx.Broken(fmt.Sprintf("helper %v failed: %s %s", st, crash, v.String()))
+				return false
+			}
+		}
+		helper.Close()
+		if v, _, err := admin.Do("ACL", "LOAD", map[string]string{"loaded-merge": "MERGE", "loaded-replace": "REPLACE"}[state]); err != nil || v.IsError() {
+			ctx.Broken(fmt.Sprintf("ACL LOAD failed: %v %s", err, v.String()))
+			return false
+		}
+	} else if v, _, err := admin.Do(append([]string{"ACL", "SETUSER", "u1"}, create.tokens()...)...); err != nil || v.IsError() {
 		ctx.Broken(fmt.Sprintf("ACL SETUSER %v failed: %v %s", create.tokens(), err, v.String()))
 		return false
 	}
